@@ -71,6 +71,38 @@ def run_merkleblock(total, hashes_be, flags_bytes, root_le):   # hashes in wire 
     return True, [bytes(x) for x in mb[1].proved_txs()]
 
 
+def run_merkleblock_inplace(honest, trials):
+    """one MerkleBlock object, validated first with the honest proof, then given every altered proof in turn by assigning its
+    fields (taken from a parse of the altered wire bytes) and asked again; the honest fields go back in between"""
+    from buidl.merkleblock import MerkleBlock
+    from buidl.helper import encode_varint
+
+    def wire(total, hashes_be, flags_bytes, root_le):
+        header = (1).to_bytes(4, "little") + b"\x00" * 32 + root_le + (0).to_bytes(4, "little") + b"\xff\xff\x00\x1d" + b"\x00" * 4
+        return header + total.to_bytes(4, "little") + encode_varint(len(hashes_be)) + b"".join(hashes_be) + encode_varint(len(flags_bytes)) + flags_bytes
+
+    def put(dst, src):
+        dst.total, dst.hashes, dst.flags = src.total, list(src.hashes), src.flags
+        dst.header.merkle_root = src.header.merkle_root
+
+    def ask(mb):
+        v = outcome(mb.is_valid)
+        return (True, [bytes(x) for x in mb.proved_txs()]) if v == ("ok", True) else (False, [])
+    mb = MerkleBlock.parse(io.BytesIO(wire(*honest)))
+    first = ask(mb)
+    res, honest_again = [], []
+    for tr in trials:
+        alt = outcome(MerkleBlock.parse, io.BytesIO(wire(*tr)))
+        if alt[0] != "ok":
+            res.append(None)
+            continue
+        put(mb, alt[1])
+        res.append(ask(mb))
+        put(mb, MerkleBlock.parse(io.BytesIO(wire(*honest))))
+        honest_again.append(ask(mb))
+    return first, res, honest_again
+
+
 def run(ctx):
     from buidl import helper as H
     from buidl.block import Block
@@ -161,6 +193,16 @@ def run(ctx):
                 if hashes:
                     trials.append(("drop-hash", n, hashes[:-1], fb, root))
                 trials.append(("extra-hash", n, hashes + [rb(32)], fb, root))
+            if n <= 100:
+                # the same alterations on ONE object that has validated the honest proof before (fields assigned in place)
+                first, res, again = run_merkleblock_inplace((n, list(hashes), fb, root), [(t_, list(h_), f_, r_) for (_, t_, h_, f_, r_) in trials[1:]])
+                txs = [B(t) for t in txids_be]
+                for j, (valid, proved) in enumerate([first] + again):
+                    cases.append({"id": "ai%d.%d.h%d" % (i, rep, j), "kind": "altered", "alter": "none", "valid": valid, "txids": txs, "proved": [B(p) for p in proved], "expect": [B(p) for p in expect]})
+                for j, r_ in enumerate(res):
+                    if r_ is not None:
+                        cases.append({"id": "ai%d.%d.%d" % (i, rep, j), "kind": "altered", "alter": trials[j + 1][0], "valid": r_[0], "txids": txs, "proved": [B(p) for p in r_[1]], "expect": [B(p) for p in expect]})
+                        ctx.nontriv(("altered-in-place", trials[j + 1][0], r_[0]))
             for j, (alter, total, hs, fbytes, rt) in enumerate(trials):
                 valid, proved = run_merkleblock(total, list(hs), fbytes, rt)
                 big = n > 300
@@ -216,6 +258,17 @@ def run(ctx):
             cases.append({"id": "fx%d.%d" % (j, dt), "kind": "bits", "bits": B(bits), "dt": dt, "target_ok": isinstance(t, int), "target": le(t), "back": B(back[1]) if back[0] == "ok" else [],
                           "newbits": B(nb[1]) if nb[0] == "ok" else [], "only_target": False})
             ctx.nontriv(("retarget-unit-factor", j, dt))
+    # timespans far outside the clamps: block timestamps are not monotone, so the 2016-block differential can be zero or negative
+    # (clamped to a quarter like every short timespan), and it can be as large as the 32-bit timestamps allow (clamped to four)
+    for j, hexbits in enumerate(["ffff001d", "cb04041b", "ae77031e", "2301001a"]):
+        for dt in (0, -1, -600, -1209600, -4838400, -(2 ** 31 - 1), 2 ** 31 - 1, 2 ** 30 + 7):
+            bits = bytes.fromhex(hexbits)
+            t = H.bits_to_target(bits)
+            nb = outcome(H.calculate_new_bits, bits, dt)
+            back = outcome(H.target_to_bits, t)
+            cases.append({"id": "ng%d.%d" % (j, dt), "kind": "bits", "bits": B(bits), "dt": dt, "target_ok": isinstance(t, int), "target": le(t), "back": B(back[1]) if back[0] == "ok" else [],
+                          "newbits": B(nb[1]) if nb[0] == "ok" else [], "only_target": False})
+            ctx.nontriv(("retarget-far-timespan", j, dt))
     # headers: regtest-difficulty headers mined by the harness, chains with one broken link / one bad pow
     def mine(prev, good=True):
         while True:
